@@ -143,6 +143,30 @@ func C08(r *explore.Run) {
 		if c.Cost() > 0 {
 			c.Nontrivial(explore.Hash(text))
 		}
+		// the same sentence in uniform re-spellings (acceptance must not depend on single blanks)
+		if c.Cost() <= 2 {
+			for _, tr := range respellTrivia {
+				var b strings.Builder
+				for i, t := range s.Src {
+					b.WriteString(t.Text)
+					if i+1 < len(s.Src) && !t.NoGap {
+						b.WriteString(tr)
+					}
+				}
+				alt := b.String()
+				for _, n := range []string{specificEntry(s.Kind), map[bool]string{true: "ParseStatement"}[isStatementKind(s.Kind)]} {
+					if n == "" {
+						continue
+					}
+					res := EntryByName(n).Call(alt)
+					c.Count("respelled_calls", 1)
+					if res.Panic == nil && res.Err != nil {
+						c.Violation("C08/rejected/"+errClass(res.Err)+"/"+errContext(alt, res.Err), alt, fmt.Sprintf("%s rejects a re-spelled sentence of G (root %s): %v", n, s.Root, res.Err))
+						break
+					}
+				}
+			}
+		}
 		var results []ParseResult
 		var names []string
 		if se := specificEntry(s.Kind); se != "" {
